@@ -79,6 +79,29 @@ func init() {
 		"strings.Compare": func(e *Exec, st *State, a []Val, x *ast.CallExpr) Val {
 			return Val{T: Ite(App(SBool, "str.<", a[0].T, a[1].T), IntLit(-1), Ite(Eq(a[0].T, a[1].T), IntLit(0), IntLit(1))), GT: intT}
 		},
+		// slices.Clip: same slice, no spare capacity
+		"slices.Clip": func(e *Exec, st *State, a []Val, x *ast.CallExpr) Val {
+			v := a[0]
+			if !isSlcSort(v.T.Sort) && x != nil && len(x.Args) == 1 {
+				v = e.ev(st, x.Args[0])
+			}
+			if !isSlcSort(v.T.Sort) {
+				return e.freshVal("clip", e.info().TypeOf(x))
+			}
+			v.Full = true
+			return v
+		},
+		// slices.Clone: same contents, fresh backing array (no origin)
+		"slices.Clone": func(e *Exec, st *State, a []Val, x *ast.CallExpr) Val {
+			v := a[0]
+			if !isSlcSort(v.T.Sort) && x != nil && len(x.Args) == 1 {
+				v = e.ev(st, x.Args[0]) // the argument was converted to the type parameter: take the expression itself
+			}
+			if !isSlcSort(v.T.Sort) {
+				return e.freshVal("clone", e.info().TypeOf(x))
+			}
+			return Val{T: v.T, GT: v.GT, Full: true}
+		},
 		// bytes.Equal is an equivalence relation: equality of an abstract "contents" value (quantifier-free)
 		"bytes.Equal": func(e *Exec, st *State, a []Val, x *ast.CallExpr) Val {
 			so := a[0].T.Sort
@@ -509,6 +532,7 @@ func (e *Exec) builtin(st *State, name string, x *ast.CallExpr) Val {
 			if other.T.Sort == SString {
 				other = e.conversion(st, other, rt, x.Pos())
 			}
+			e.appendMayAlias(st, base, x.Pos())
 			return e.appendSlices(st, base, other, rt)
 		}
 		arr, n := SlcArr(base.T), SlcLen(base.T)
@@ -526,6 +550,9 @@ func (e *Exec) builtin(st *State, name string, x *ast.CallExpr) Val {
 			nl = Add(n, IntLit(int64(cnt)))
 		}
 		// append may write in place into spare capacity shared with base's origin: the result keeps the origin
+		if cnt > 0 {
+			e.appendMayAlias(st, base, x.Pos())
+		}
 		return Val{T: MkSlc(el, arr, nl, nn), GT: rt, Orig: base.Orig}
 	case "make":
 		t := info.TypeOf(x)
@@ -727,6 +754,12 @@ func (e *Exec) callFunc(st *State, fn *types.Func, recv *Val, args []Val, x *ast
 func (e *Exec) callFunc0(st *State, fn *types.Func, recv *Val, args []Val, x *ast.CallExpr) Val {
 	name := fn.Origin().FullName()
 	sig := fn.Type().(*types.Signature)
+	// a call of a generic function: use the signature as instantiated at this call (results have concrete types)
+	if x != nil && sig.TypeParams() != nil && e.inContract == 0 {
+		if t, ok := e.info().TypeOf(x.Fun).(*types.Signature); ok && t.TypeParams() == nil && t.Params().Len() == sig.Params().Len() {
+			sig = t
+		}
+	}
 	e.callsiteChecks(st, fn, recv, args, x)
 	if isNoEffect(name) {
 		return e.zeroResults(sig)
@@ -1353,4 +1386,15 @@ func (e *Exec) cmpOverElements(st *State, c *Closure, arr, n Term, sliceT types.
 	adjacent := fmt.Sprintf("(forall ((%s Int)) (=> (and (< 0 %s) (< %s %s)) (let ((%s (- %s 1))) (<= %s 0))))",
 		jv.S, jv.S, jv.S, n.S, iv.S, jv.S, v.T.S)
 	return T(SBool, "(and "+pair+" "+adjacent+")"), true
+}
+
+// appendMayAlias: with `opt appendalias=on`, appending to a slice that may have spare capacity counts as an
+// in-place write to the backing array it shares with its origin (two appends to the same base then alias
+// each other). Slices known to be full (slices.Clip, slices.Clone) reallocate instead.
+func (e *Exec) appendMayAlias(st *State, base Val, pos token.Pos) {
+	tc := e.frames[0].contract
+	if tc == nil || tc.Opts["appendalias"] != "on" || base.Full || len(base.Orig) == 0 {
+		return
+	}
+	e.recordSliceWrite(st, base, pos)
 }
